@@ -20,6 +20,7 @@ import (
 	"sync"
 	"sync/atomic"
 	"time"
+	"unsafe"
 
 	geom "github.com/twpayne/go-geom"
 	"github.com/twpayne/go-geom/bigxy"
@@ -62,6 +63,12 @@ type c17fx struct {
 	igcs   [][]byte
 	bounds []*geom.Bounds
 	tracks []*geom.LineString
+	// argument lists for the variadic centroid functions: four members in use, room
+	// for more behind them (filled with sentinels), as a caller's slice may have
+	lineLists [][]*geom.LineString
+	ringLists [][]*geom.LinearRing
+	polyLists [][]*geom.Polygon
+	ptLists   [][]*geom.Point
 	// shared objects that hold only options or read-only references
 	wktEncs  []*wkt.Encoder
 	sqlVals  []sqlWrapper
@@ -134,6 +141,26 @@ func c17Hash(fx *c17fx) uint64 {
 			mixf(v)
 		}
 		mixi(len(f))
+	}
+	for _, l := range fx.lineLists {
+		for _, x := range l[:cap(l)] {
+			mixi(int(uintptr(unsafe.Pointer(x))))
+		}
+	}
+	for _, l := range fx.ringLists {
+		for _, x := range l[:cap(l)] {
+			mixi(int(uintptr(unsafe.Pointer(x))))
+		}
+	}
+	for _, l := range fx.polyLists {
+		for _, x := range l[:cap(l)] {
+			mixi(int(uintptr(unsafe.Pointer(x))))
+		}
+	}
+	for _, l := range fx.ptLists {
+		for _, x := range l[:cap(l)] {
+			mixi(int(uintptr(unsafe.Pointer(x))))
+		}
 	}
 	for _, c := range fx.coords {
 		for _, v := range c[:cap(c)] {
@@ -322,6 +349,25 @@ func c17Fixtures(seed uint64) *c17fx {
 			}
 		}
 		fx.flats3 = append(fx.flats3, c17Canary(withSpare(f, 12)))
+	}
+	for i := 0; i < 6; i++ {
+		ll := make([]*geom.LineString, 0, 8)
+		rl := make([]*geom.LinearRing, 0, 8)
+		pl := make([]*geom.Polygon, 0, 8)
+		tl := make([]*geom.Point, 0, 8)
+		for k := 0; k < 8; k++ {
+			ox, oy := float64(r.Range(-50, 50)), float64(r.Range(-50, 50))
+			w := float64(r.Range(1, 9))
+			sq := []float64{ox, oy, ox + w, oy, ox + w, oy + w, ox, oy + w, ox, oy}
+			ll = append(ll, geom.NewLineStringFlat(geom.XY, append([]float64{}, sq[:6]...)))
+			rl = append(rl, geom.NewLinearRingFlat(geom.XY, append([]float64{}, sq...)))
+			pl = append(pl, geom.NewPolygonFlat(geom.XY, append([]float64{}, sq...), []int{10}))
+			tl = append(tl, geom.NewPointFlat(geom.XY, []float64{ox, oy}))
+		}
+		fx.lineLists = append(fx.lineLists, ll[:4])
+		fx.ringLists = append(fx.ringLists, rl[:4])
+		fx.polyLists = append(fx.polyLists, pl[:4])
+		fx.ptLists = append(fx.ptLists, tl[:4])
 	}
 	for i := 0; i < 40; i++ {
 		fx.coords = append(fx.coords, geom.Coord(c17Canary(withSpare([]float64{float64(r.Range(-20, 20)), float64(r.Range(-20, 20)), float64(r.Range(-20, 20))}, 4))))
@@ -535,6 +581,10 @@ var c17Registry = func() []c17fn {
 	add("xy.ConvexHullFlat", nf, func(fx *c17fx, k int) string { return gstr(xy.ConvexHullFlat(geom.XY, fx.flats[k]), nil) })
 	add("xy.ConvexHullFlat(XYZ, repeated positions, NaN Z)", func(fx *c17fx) int { return len(fx.flats3) }, func(fx *c17fx, k int) string {
 		return gstr(xy.ConvexHullFlat(geom.XYZ, fx.flats3[k]), nil) + gstr(xy.ConvexHull(geom.NewMultiPointFlat(geom.XYZ, fx.flats3[k])), nil)
+	})
+	add("xy centroids of a window of a caller's argument list", func(fx *c17fx) int { return len(fx.lineLists) }, func(fx *c17fx, k int) string {
+		l, rg, pg, pt := fx.lineLists[k], fx.ringLists[k], fx.polyLists[k], fx.ptLists[k]
+		return cstr(xy.LinesCentroid(l[0], l[1:3]...)) + cstr(xy.LinearRingsCentroid(rg[0], rg[1:3]...)) + cstr(xy.PolygonsCentroid(pg[0], pg[1:3]...)) + cstr(xy.PointsCentroid(pt[0], pt[1:3]...))
 	})
 	add("xy.PointsCentroidFlat", nf, func(fx *c17fx, k int) string { return cstr(xy.PointsCentroidFlat(geom.XY, fx.flats[k])) })
 	add("xy.SimplifyFlatCoords", nf, func(fx *c17fx, k int) string { return fmt.Sprint(xy.SimplifyFlatCoords(fx.flats[k], float64(k%7), 2)) })
